@@ -425,15 +425,17 @@ class Universe(object):
         ns['bad'] = rpc(Integer, _returns=Integer)(f_bad)
         self.service = type('Svc', (Service,), ns)
         self.services = [self.service]
+        extra_bases = ()
         if self.on_service is not None:
-            self.on_service(self.service)
+            # may return extra base classes for the inheriting service
+            extra_bases = tuple(self.on_service(self.service) or ())
         if with_sub:
             # an inheriting service: must inherit Svc's listeners (C14)
             def f_sub(ctx, a):
                 ctl.calls.append(('sub', 'enter'))
                 ctl.hit('fn', 'sub')
                 return _num(a) * 2
-            self.sub_service = type('SubSvc', (self.service,),
+            self.sub_service = type('SubSvc', (self.service,) + extra_bases,
                            {'sub': rpc(Integer, _returns=Integer)(f_sub)})
             M['sub'] = Method('sub', [('a', s_int)], s_int)
         else:
